@@ -19,7 +19,10 @@ ASSUMPTIONS = [
     "post-finish actions of the row)",
     "rows whose trimmed solution is infeasible by the oracle are C01's business and skipped here",
 ]
-ENVS = ["tsp", "atsp", "cvrp", "sdvrp", "cvrptw", "svrp", "op", "pctsp", "spctsp", "pdp", "mtsp", "mtvrp"]
+ENVS = ["tsp", "atsp", "cvrp", "sdvrp", "cvrptw", "svrp", "op", "pctsp", "spctsp", "pdp", "mtsp", "mtvrp", "mdcpdp"]
+
+
+STATELESS_REWARD = {"tsp", "atsp", "cvrp", "cvrptw", "sdvrp", "svrp", "op", "pctsp", "spctsp", "pdp", "mtvrp"}
 
 
 def close(a, b, terms):
@@ -60,6 +63,15 @@ def execute(case, ctx):
             ctx.nontriv({"c": case, "row": b})
     ctx.sample({"env": name, "cfg": case["cfg"], "src": case["src"], "actions_row0": A[0].tolist(),
                 "reward_row0": float(rew[0])})
+
+    # envs whose reward is a function of instance + actions are also scored by the library with a td other than the
+    # final rollout state (tasks/eval.py: env.get_reward(batchify(td_init, n), actions)): same value required
+    if name in STATELESS_REWARD:
+        r0 = ctx.guard(env.get_reward, ep.td0.clone(), A.clone(), what=f"get_reward_reset_td|{name}|{sl}").reshape(-1).double()
+        ok = (r0 - rew).abs() <= 1e-5 * (1 + rew.abs())
+        ctx.check(bool(ok.all()), f"{name}|{sl}|reward_depends_on_rollout_state",
+                  f"get_reward(reset td, actions)={r0.tolist()} differs from get_reward(final td, actions)={rew.tolist()}",
+                  {"actions": A.tolist()})
 
     # metamorphic: reversal / rotation (TSP, ATSP), translation (coordinate envs)
     if name == "tsp":
@@ -129,7 +141,12 @@ def execute_sched(case, ctx):
                     break
                 m.step(a)
             if not ok or not m.done:
-                ctx.event("model_disagrees(C07 territory)")
+                # the executed actions are not a complete schedule of THIS instance under the documented decision
+                # process, so no objective can correspond to the reported reward
+                ctx.violation(f"{name}|{sl}|actions_do_not_encode_a_schedule",
+                              "the executed action sequence is not admissible/complete in the reference simulator of the "
+                              f"original instance (row {b}), yet a reward {float(rew[b])} is reported for it",
+                              {"row": b, "actions": acts, "instance": insts[b]})
                 continue
             if name == "ffsp":
                 obj = -float(max(m.start[mm][j] + m.R[j][mm] for j in range(m.J) for mm in range(m.T) if m.start[mm][j] >= 0))
